@@ -354,6 +354,27 @@ func c16Special() []refTree {
 			"Animal": gen.S{"title": "MARKANIMAL", "oneOf": gen.Arr(gen.S{"$ref": "#/components/schemas/Cat"}, gen.S{"$ref": "#/components/schemas/Dog"}),
 				"discriminator": gen.S{"propertyName": "kind", "mapping": gen.S{"cat": "#/components/schemas/Cat", "dog": "#/components/schemas/Dog"}}}})},
 			[]refPlan{{Position: "components.schemas.Site", Kind: "schema", Shape: "external-discriminator-mapping", Ref: "zoo.json#/components/schemas/Animal", Marker: "MARKANIMAL"}})
+		// (g5) the same, with several discriminator values mapped to one alternative (aliases) and whole-file alternatives
+		root = refRootSkeleton()
+		dig(root, "paths", "/op2", "post", "requestBody", "content", "application/json")["schema"] = gen.S{"$ref": "zoo2.json#/components/schemas/Animal"}
+		dig(root, "components", "schemas")["Site"] = gen.S{"$ref": "zoo2.json#/components/schemas/Animal"}
+		mk(rootPath, root, map[string]gen.S{dir + "/zoo2.json": lib("zoo2", gen.S{"Cat": animal("cat"),
+			"Animal": gen.S{"title": "MARKANIMAL2", "oneOf": gen.Arr(gen.S{"$ref": "#/components/schemas/Cat"}, gen.S{"$ref": "kinds/dog.json"}),
+				"discriminator": gen.S{"propertyName": "kind", "mapping": gen.S{"cat": "#/components/schemas/Cat", "kitten": "#/components/schemas/Cat", "dog": "kinds/dog.json", "puppy": "kinds/dog.json", "hound": "kinds/dog.json"}}}}),
+			dir + "/kinds/dog.json": animal("dog")},
+			[]refPlan{{Position: "components.schemas.Site", Kind: "schema", Shape: "external-discriminator-mapping-with-aliases", Ref: "zoo2.json#/components/schemas/Animal", Marker: "MARKANIMAL2"}})
+		// (g6) the root takes a path over from another document; there an operation's callback names that very path again.
+		// No finite inlined form exists: the back reference stays a reference, to the ROOT path the item was inlined at
+		// (one segment, several segments, a template variable)
+		for _, key := range []string{"/subscribe", "/hooks/{hookId}/subscribe", "/a/b/c/d"} {
+			root = refRootSkeleton()
+			dig(root, "paths")[key] = gen.S{"$ref": "hooks.json#/paths/~1x"}
+			hooks := gen.S{"openapi": "3.0.3", "info": gen.S{"title": "hooks", "version": "1"}, "paths": gen.S{"/x": gen.S{"summary": "MARKHOOKX",
+				"parameters": gen.Arr(gen.S{"name": "hookId", "in": "path", "required": true, "schema": gen.S{"type": "string"}}),
+				"post":       gen.S{"responses": gen.S{"200": gen.S{"description": "ok"}}, "callbacks": gen.S{"again": gen.S{"{$request.body#/u}": gen.S{"$ref": "#/paths/~1x"}}}}}}}
+			mk(rootPath, root, map[string]gen.S{dir + "/hooks.json": hooks},
+				[]refPlan{{Position: "nested:path:" + key, Kind: "pathItem", Shape: "callback-names-its-own-path", Ref: "hooks.json#/paths/~1x", Marker: "MARKHOOKX"}})
+		}
 		// (f) one external library offering the same name in every component collection: they are different objects
 		root = refRootSkeleton()
 		dig(root, "components", "schemas")["Site"] = gen.S{"$ref": "common.json#/components/schemas/Pet"}
@@ -381,6 +402,13 @@ func c16Special() []refTree {
 func c16Nested(d *openapi3.T, pos string) (string, string, bool, bool) {
 	if d.Components == nil {
 		return "", "", false, false
+	}
+	if strings.HasPrefix(pos, "nested:path:") {
+		it := d.Paths.Value(strings.TrimPrefix(pos, "nested:path:"))
+		if it == nil {
+			return "", "", false, false
+		}
+		return it.Ref, it.Summary, it.Summary != "" || it.Post != nil, true
 	}
 	switch pos {
 	case "nested:Lookup.recordId":
@@ -577,6 +605,9 @@ func c16Tree(c *core.Ctx, t refTree) {
 	var refs []string
 	collectRefStrings(tree, &refs)
 	for _, r := range refs {
+		if first.Shape == "callback-names-its-own-path" && strings.HasPrefix(r, "#/paths/") {
+			continue // the back edge of a path that contains itself: a reference inside the document (the reload decides whether it designates something)
+		}
 		if !strings.HasPrefix(r, "#/components/") {
 			c.Violate(feat("external_ref_remains"), mkW(&first, out, r, "#/components/..."), fmt.Sprintf("%s\n$ref %q remains in the internalized document", desc, r))
 			return
@@ -658,6 +689,9 @@ func c16Tree(c *core.Ctx, t refTree) {
 	var refs2 []string
 	collectRefStrings(tree2, &refs2)
 	for _, r := range refs2 {
+		if first.Shape == "callback-names-its-own-path" && strings.HasPrefix(r, "#/paths/") {
+			continue
+		}
 		if !strings.HasPrefix(r, "#/components/") {
 			f := feat("external_ref_remains")
 			f["history"] = "second InternalizeRefs on the same document"
@@ -691,7 +725,8 @@ func c16Traffic(d *openapi3.T) string {
 			sb.WriteString("router:" + err.Error())
 			return
 		}
-		bodies := []string{`{}`, `{"recordId":7}`, `{"recordId":"x"}`, `{"p":{"a":1}}`, `"s"`, `[1]`, `7`, `{"kind":"cat","cat":"x"}`, `{"kind":"dog","cat":"x"}`, `{"kind":"bird"}`}
+		bodies := []string{`{}`, `{"recordId":7}`, `{"recordId":"x"}`, `{"p":{"a":1}}`, `"s"`, `[1]`, `7`, `{"kind":"cat","cat":"x"}`, `{"kind":"dog","cat":"x"}`, `{"kind":"bird"}`,
+			`{"kind":"dog","dog":"x"}`, `{"kind":"puppy","dog":"x"}`, `{"kind":"hound","dog":"x"}`, `{"kind":"kitten","cat":"x"}`, `{"kind":"kitten","dog":"x"}`}
 		for _, target := range []string{"http://h.t/op1", "http://h.t/op2", "http://h.t/op2?psch=a&pex=3", "http://h.t/pi"} {
 			for _, b := range bodies {
 				hdr := http.Header{"Content-Type": []string{"application/json"}}
